@@ -260,9 +260,15 @@ pub fn run(case: &SessionCase, tag: u64) -> Outcome {
                         } else {
                             let text: Vec<String> = diags.iter().map(|d| d.printable(state.as_ref().unwrap().db.print_location_fn(false)).to_string()).collect();
                             let after = world::snapshot(&artifact_dir);
-                            if !rec.ops.is_empty() {
+                            let fs_error = text.iter().any(|t| t.starts_with("Unable to "));
+                            if !rec.ops.is_empty() && fs_error {
                                 // the write phase was entered without an injected fault and failed
                                 out.violations.push(Violation { property: "C18", kind: "unfaulted-write-phase-failed", detail: format!("compile failed while writing artifacts: {}", text.first().cloned().unwrap_or_default()), step: idx });
+                                dirty = true;
+                            } else if !rec.ops.is_empty() {
+                                // the compile reports (non file-system) diagnostics and nevertheless
+                                // issued file-system operations
+                                out.violations.push(Violation { property: "C17", kind: "failed-compile-changed-artifacts", detail: format!("compile reported {} diagnostic(s) ({}) but issued {} file-system operation(s), e.g. {}; the artifact directory {}", text.len(), text.first().map(|t| t.lines().next().unwrap_or("").to_string()).unwrap_or_default(), rec.ops.len(), rec.ops.first().cloned().unwrap_or_default(), if after != before { "changed" } else { "ended up with the same content" }), step: idx });
                                 dirty = true;
                             } else if after != before {
                                 out.violations.push(Violation { property: "C17", kind: "failed-compile-changed-artifacts", detail: format!("compile reported {} diagnostic(s) and the artifact directory changed", text.len()), step: idx });
@@ -298,8 +304,8 @@ const SOURCE_PATHS: [usize; 10] = [0, 1, 2, 3, 4, 5, 6, 7, 8, 15];
 
 /// Snippet choice biased to valid contents, so that most runs make progress between errors.
 pub fn gen_snippet(rng: &mut Rng) -> usize {
-    // index:                      0  1  2  3  4  5  6  7  8  9 10 11 12 13 14 15
-    const W: [u32; 16] = [8, 3, 8, 8, 6, 8, 6, 6, 2, 2, 2, 4, 6, 5, 2, 2];
+    // index:                      0  1  2  3  4  5  6  7  8  9 10 11 12 13 14 15 16 17
+    const W: [u32; 18] = [8, 3, 8, 8, 6, 8, 6, 6, 2, 2, 2, 4, 6, 5, 2, 2, 6, 5];
     rng.weighted(&W)
 }
 
